@@ -31,6 +31,9 @@ ASSUMPTIONS = [
     'timing clauses are evaluated only in runs without stall faults and without sleep jitter',
     'grow()/shrink() are issued by one thread at a time (as a sequence), concurrently with everything else',
     'with threads=False the thread that runs the event loop is the one that calls join()/terminate()',
+    'C04: user callbacks keep the result handler away from the result pipe for less than the lost-worker timeout '
+    '(the pool waits that long for a result its dead worker may have published; it cannot tell a result that '
+    'sits unread for longer from a lost one)',
 ]
 RULE = ('case = (pool configuration, 1-2 user programs of apply/map/starmap/imap/imap_unordered/get/next/close/join/'
         'terminate/grow/shrink/discard/terminate_job ops over picklable task programs, in-task fault instructions '
